@@ -1527,6 +1527,10 @@ class Console:
             """Escape html."""
             return text.replace("&", "&amp;").replace("<", "&lt;").replace(">", "&gt;")
 
+        def escape_attr(text: str) -> str:
+            """Escape text for use in a double quoted html attribute."""
+            return escape(text).replace('"', "&quot;")
+
         render_code_format = CONSOLE_HTML_FORMAT if code_format is None else code_format
 
         with self._record_buffer_lock:
@@ -1539,7 +1543,7 @@ class Console:
                         rule = style.get_html_style(_theme)
                         text = f'<span style="{rule}">{text}</span>' if rule else text
                         if style.link:
-                            text = f'<a href="{style.link}">{text}</a>'
+                            text = f'<a href="{escape_attr(style.link)}">{text}</a>'
                     append(text)
             else:
                 styles: Dict[str, int] = {}
@@ -1553,7 +1557,7 @@ class Console:
                             style_number = styles.setdefault(rule, len(styles) + 1)
                             text = f'<span class="r{style_number}">{text}</span>'
                         if style.link:
-                            text = f'<a href="{style.link}">{text}</a>'
+                            text = f'<a href="{escape_attr(style.link)}">{text}</a>'
                     append(text)
                 stylesheet_rules: List[str] = []
                 stylesheet_append = stylesheet_rules.append
